@@ -95,7 +95,7 @@ def random_cut_case(rng, max_heavy, kinds=('$', '><'), max_parts=6, mol_kw=None,
         if render_opts is None:
             render_opts = {'start_on_ring_desc': 0.9, 'leading': rng.random() < 0.15,
                            'desc_pos': rng.choice(['after', 'mixed', 'before', None]),
-                           'explicit_single': rng.choice([0.0, 0.1])}
+                           'explicit_single': rng.choice([0.0, 0.1]), 'non_dfs_tree': rng.choice([0.0, 0.0, 0.5])}
     else:
         keep = False
         g = M.gen_molecule(rng, max_heavy=max_heavy, p_ring=rng.choice([0.25, 0.5]), **dict(dict(p_thio=0.3), **(mol_kw or {})))
@@ -108,7 +108,7 @@ def random_cut_case(rng, max_heavy, kinds=('$', '><'), max_parts=6, mol_kw=None,
         # so its spelling has nodes that close several rings at once
         part = {n: i for i, n in enumerate(g.nodes)}
     nparts = max(part.values()) + 1
-    case = M.build_case(rng, g, part, kinds=kinds, render_opts=render_opts or {'explicit_single': rng.choice([0.0, 0.1]), 'desc_after_branch': rng.choice([0.0, 0.5, 0.9]), 'desc_in_parens': rng.choice([0.0, 0.0, 0.3])})
+    case = M.build_case(rng, g, part, kinds=kinds, render_opts=render_opts or {'explicit_single': rng.choice([0.0, 0.1]), 'desc_after_branch': rng.choice([0.0, 0.5, 0.9]), 'desc_in_parens': rng.choice([0.0, 0.0, 0.3]), 'non_dfs_tree': rng.choice([0.0, 0.0, 0.5])})
     if case is None:
         return None
     ast, pre = M.base_to_ast(rng, case['base'])
@@ -232,7 +232,7 @@ def case_text(case):
     return f"{case['ctor'] if case.get('ctor') else 'string'}: {case['base_string']}.{case['frag_string']}" + (f" {case['kw']}" if case.get('kw') else '')
 
 
-def make_resolver(case, **kw):
+def make_resolver(case, on_dicts=None, **kw):
     import cgsmiles
     from cgsmiles import MoleculeResolver
     ctor = case.get('ctor', 'string')
@@ -252,6 +252,8 @@ def make_resolver(case, **kw):
         dicts = []
         for i, blk in enumerate(blocks):
             dicts.append(cgsmiles.read_fragments(blk, all_atom=(i == len(blocks) - 1 and last_all_atom)))
+        if on_dicts:
+            on_dicts(dicts)
         return MoleculeResolver.from_fragment_dicts(case['base_string'], dicts, **kw)
     raise ValueError(ctor)
 
@@ -841,7 +843,13 @@ def random_periodic_case(rng):
 EXPECTED_REJECTION = 'Likely you are writing an aromatic molecule'
 
 
-def ambig_resolver(case):
+def _given_templates(dicts):
+    """snapshot of the fragment graphs a caller is about to hand to from_fragment_dicts (the contract's reference)"""
+    from .. import contracts
+    contracts.CONTEXT['given_templates'] = [{k: contracts.snap_graph(g) for k, g in d.items()} for d in dicts]
+
+
+def ambig_resolver(case, on_dicts=None):
     """polymer-style input through one of the three constructors, with both keywords passed on"""
     import cgsmiles
     from cgsmiles import MoleculeResolver
@@ -853,7 +861,10 @@ def ambig_resolver(case):
     base, frag = case['string'][:cut + 1], case['string'][cut + 2:]
     if ctor == 'from_graph':
         return MoleculeResolver.from_graph(frag, cgsmiles.read_cgsmiles(base), **kw)
-    return MoleculeResolver.from_fragment_dicts(base, [cgsmiles.read_fragments(frag, all_atom=not case['coarse'])], **kw)
+    dicts = [cgsmiles.read_fragments(frag, all_atom=not case['coarse'])]
+    if on_dicts:
+        on_dicts(dicts)
+    return MoleculeResolver.from_fragment_dicts(base, dicts, **kw)
 
 
 def execute(case):
@@ -870,6 +881,7 @@ def execute(case):
     else:
         req = dict(requested_last_all_atom=True, requested_legacy=case.get('kw', {}).get('legacy', True))
     req['uncontrolled_aromatic'] = kind == 'ambig'
+    req['given_templates'] = None
     contracts.CONTEXT.update(req)
     try:
         return _execute(case)
@@ -883,13 +895,13 @@ def _execute(case):
     kind = case['kind']
     try:
         if kind == 'ambig':
-            r = ambig_resolver(case)
+            r = ambig_resolver(case, on_dicts=_given_templates)
         elif kind == 'multilevel':
             r = MoleculeResolver.from_string(case['multi_string'], last_all_atom=not case.get('coarse_last', False))
         elif kind == 'coarse_cut':
-            r = make_resolver(case, last_all_atom=False)
+            r = make_resolver(case, on_dicts=_given_templates, last_all_atom=False)
         else:
-            r = make_resolver(case, **case.get('kw', {}))
+            r = make_resolver(case, on_dicts=_given_templates, **case.get('kw', {}))
         steps = list(r.resolve_iter())
         if kind == 'multilevel':
             # the one-call driver on a fresh resolver: the pair it hands back is judged by the resolve_all contract
